@@ -5,6 +5,8 @@ mod c04;
 mod c05;
 mod c06;
 mod c08;
+mod c09;
+mod c10;
 mod c12;
 mod c13;
 mod c14;
@@ -87,10 +89,13 @@ fn main() {
         "C05" => c05::main(tier, replay, wa),
         "C06" => c06::main(tier, replay),
         "C08" => c08::main(tier, replay),
+        "C09" => c09::main(tier, replay),
+        "C10" => c10::main(tier, replay),
         "C12" => c12::main(tier, replay),
         "C13" => c13::main(tier, replay),
         "C14" => c14::main(tier, replay),
         "SELFTEST" => selftest::main(),
+        "DBGLATTICE" => { selftest::dbg_lattice(); 0 }
         _ => {
             eprintln!("no check for {id}");
             2
